@@ -40,17 +40,25 @@ def _plan(draw, max_items):
             it[ln] = draw(st.sampled_from(KV[kd]))
         if draw(st.booleans()):
             it["p"] = draw(st.sampled_from([None, 1, "v"]))
+        for (ln, rn) in by:
+            if rn != ln and draw(st.integers(0, 2)) == 0:
+                it[rn] = draw(st.sampled_from(["own", 5]))       # the left item's own entry named like the right key
         left.append(it)
+    bare = op in ("left", "inner", "semi", "anti") and draw(st.integers(0, 3)) == 0
     for i in range(nr):
-        it = {"_rid": i}
+        it = {} if bare and draw(st.booleans()) else {"_rid": i}      # some right items consist of the keys only
         for (_, rn), kd in zip(by, kinds):
             it[rn] = draw(st.sampled_from(KV[kd]))
-        if draw(st.booleans()):
+        if "_rid" in it and draw(st.booleans()):
             it["q"] = draw(st.sampled_from([None, 2, "w"]))
-        if draw(st.integers(0, 3)) == 0:
+        if "_rid" in it and draw(st.integers(0, 3)) == 0:
             it["p"] = draw(st.sampled_from([None, 7, "z"]))     # collides with a left payload name
         right.append(it)
-    return {"op": op, "by": by, "left": left, "right": right}
+    plan = {"op": op, "by": by, "left": left, "right": right}
+    if op == "aggregate" and nl and draw(st.booleans()):
+        # history: aggregate, derive a list without calling group_by again, aggregate the derived list
+        plan["then"] = draw(st.sampled_from(["filter", "head", "sort", "tail", "reverse"]))
+    return plan
 
 
 def strategy(tier):
@@ -188,7 +196,27 @@ def _check_full(plan, out):
 def _check_aggregate(plan, L, ctx):
     by = [a for a, _ in plan["by"]]
     items = plan["left"]
-    out = ctx.call("aggregate", lambda: L.group_by(*by).aggregate(n=len, ids=lambda g: g.pluck("_lid")))
+    grouped = L.group_by(*by)
+    _check_aggregate_once(by, items, grouped, ctx, "")
+    if plan.get("then"):
+        t = plan["then"]
+        if t == "filter":
+            derived, ditems = grouped.filter(lambda x: x["_lid"] % 2 == 0), [x for x in items if x["_lid"] % 2 == 0]
+        elif t == "head":
+            derived, ditems = grouped.head(2), items[:2]
+        elif t == "tail":
+            derived, ditems = grouped.tail(2), items[len(items) - min(2, len(items)):]
+        elif t == "reverse":
+            derived, ditems = grouped.reverse(), items[::-1]
+        else:
+            derived, ditems = grouped.sort(_lid=-1), sorted(items, key=lambda x: -x["_lid"])
+        ctx.cls("aggregate_again_on_derived_list")
+        _check_aggregate_once(by, ditems, derived, ctx, f"after {t} of the grouped list: ")
+
+
+def _check_aggregate_once(by, items, grouped, ctx, phase):
+    L = grouped
+    out = ctx.call(phase + "aggregate", lambda: grouped.aggregate(n=len, ids=lambda g: g.pluck("_lid")))
     groups = {}
     for it in items:
         groups.setdefault(tuple((type(it[k]).__name__, it[k]) for k in by), []).append(it)
@@ -211,9 +239,9 @@ def _check_aggregate(plan, L, ctx):
         want.append(d)
     got = [dict(x) for x in out]
     if [_typed(x) for x in got] != [_typed(x) for x in want]:
-        raise Violation("aggregate differs from the dict-grouping reference", got=got, want=want)
+        raise Violation(phase + "aggregate differs from the dict-grouping reference", got=got, want=want)
     if [dict(x) for x in L] != items:
-        raise Violation("aggregate changed the items of its receiver")
+        raise Violation(phase + "aggregate changed the items of its receiver")
     ctx.cls(f"groups_{min(len(order), 4)}")
 
 
